@@ -54,15 +54,40 @@ std::string api_observers(World& w)
     }
     // stale handles too
     for (size_t k = 0; k < w.tracks.size(); ++k)
-        if (!w.tracks[k].is_valid()) g("stale_track.title", [&](std::ostream& os) { os << v2o::fmt(w.tracks[k].title()); });
+        if (!w.tracks[k].is_valid()) out += "stale " + observe_track(w.tracks[k], true);  // every getter on the handle of a removed track
     for (size_t k = 0; k < w.crates.size(); ++k)
         if (!w.crates[k].is_valid()) g("stale_crate.children", [&](std::ostream& os) { os << w.crates[k].children().size(); });
     if (w.lib2) out += v2o::observe_tables(w);
     return out;
 }
 
+// 2.x: every optional column of a track set to NULL through the table API (states the high-level API never produces)
+void op_tt_null(World& w, const Op& op)
+{
+    // on-disk worlds are opened through eng::create_database / load_database and have no engine_library object: open a second one
+    std::shared_ptr<eng::v2::engine_library> lib = w.lib2 ? w.lib2 : std::make_shared<eng::v2::engine_library>(eng::v2::engine_library::load(w.directory));
+    auto tt = lib->track();
+    int64_t id = w.tracks.at((size_t)op.i.at(0)).id();
+    tt.set_play_order(id, std::nullopt); tt.set_bpm(id, std::nullopt); tt.set_year(id, std::nullopt); tt.set_bitrate(id, std::nullopt); tt.set_bpm_analyzed(id, std::nullopt);
+    tt.set_file_bytes(id, std::nullopt); tt.set_title(id, std::nullopt); tt.set_artist(id, std::nullopt); tt.set_album(id, std::nullopt); tt.set_genre(id, std::nullopt);
+    tt.set_comment(id, std::nullopt); tt.set_label(id, std::nullopt); tt.set_composer(id, std::nullopt); tt.set_remixer(id, std::nullopt); tt.set_key(id, std::nullopt);
+    tt.set_album_art(id, std::nullopt); tt.set_time_last_played(id, std::nullopt); tt.set_played_indicator(id, std::nullopt); tt.set_streaming_source(id, std::nullopt);
+    tt.set_uri(id, std::nullopt); tt.set_third_party_source_id(id, std::nullopt);
+    if (w.schema >= eng::engine_schema::schema_2_20_1) tt.set_active_on_load_loops(id, std::nullopt);
+}
+struct RegisterOps
+{
+    RegisterOps() { World::register_op("tt_null", op_tt_null); }
+} register_ops;
+
 struct Dom : CompositeBase
 {
+    static std::vector<std::string> seeds(eng::engine_schema s)
+    {
+        auto v = CompositeBase::seeds(s);
+        if (is_v2(s)) v.push_back("create_track(2);tt_null(0)");
+        return v;
+    }
     static bool step(World& w, Model& m, const Op& op, const Outcome& r, Agg& a, const std::string&, bool checking)
     {
         advance(m, op, r, w);
